@@ -277,7 +277,11 @@ pub fn rand(min: u64, max: u64, unused3: u64, unused4: u64, unused5: u64) -> u64
     });
 
     if min < max {
-        n = n % (max + 1 - min) + min;
+        // The range covers the whole of u64 when min == 0 and max == u64::MAX
+        n = match (max - min).checked_add(1) {
+            Some(range) => n % range + min,
+            None => n,
+        };
     };
     n
 }
